@@ -11,6 +11,7 @@ FILE_BASES = ["lib", "types", "service", "foo.bar", "import", "metadata", "class
 
 
 SUB_SEGS = ["admin", "s", "types2", "audit", "t", "u", "admin"]      # a segment may repeat along a path (`admin.admin`)
+T3_NAME_VALUES = ["my_lib", "shelf", "book_shelf", "lib2", "a"]
 NS_OVERRIDE_SEGS = ["foo", "bar", "zed", "google", "cloud", "ads", "a1", "x_y"]
 COLLIDING = [("common_types", "common.types"), ("foo.bar", "foo_bar"), ("import", "import_"), ("class_", "class"), ("a_b.c", "a.b_c"), ("metadata", "metadata_")]
 
@@ -59,8 +60,13 @@ def gen_case(r: apigen.Rng, idx: int):
     if r.maybe(0.4): opts.append("metadata")
     if r.maybe(0.2): opts.append("rest-numeric-enums")
     case["override_name"] = None; case["override_ns"] = None
-    if r.maybe(0.2):
-        case["override_name"] = r.pick(["my_lib", "shelf"]); opts.append("python-gapic-name=" + case["override_name"])
+    if r.maybe(0.35):
+        # the single-valued `name` key given 1..3 times with (mostly) DIFFERENT values, anywhere among the other options:
+        # which occurrence is the override is for the model of Options.build to say (`lastValue`: the last one)
+        nvals = [r.pick(T3_NAME_VALUES) for _ in range(r.pick([1, 2, 2, 3]))]
+        case["override_name"] = nvals
+        for v in nvals:
+            opts.append("python-gapic-name=" + v)
     if r.maybe(0.4):
         # the namespace key is REPEATABLE (protoc joins several --python_gapic_opt flags with ","), and every value may itself be
         # in dot notation: 1..3 values x 1..3 dotted components each, placed anywhere among the other options (order kept)
@@ -69,14 +75,26 @@ def gen_case(r: apigen.Rng, idx: int):
         at = sorted(r.randint(0, len(opts)) for _ in vals)
         for k in range(len(vals) - 1, -1, -1):
             opts.insert(at[k], "python-gapic-namespace=" + vals[k])
-    if r.maybe(0.15):
-        opts.append("warehouse-package-name=acme-lib-pkg")
+    if r.maybe(0.2):
+        for v in r.sample(["acme-lib-pkg", "other-pkg", "third"], r.pick([1, 1, 2])):
+            opts.insert(r.randint(1, len(opts)), r.pick(["warehouse-package-name=", "python-gapic-warehouse-package-name="]) + v)
+    if case["override_name"] and r.maybe(0.5):
+        # interleave: move the name keys to random places (relative order kept), so that unknown-to-be / namespace / transport
+        # options sit between two occurrences
+        rest = [o for o in opts if not o.startswith("python-gapic-name=")]
+        at = sorted(r.randint(0, len(rest)) for _ in case["override_name"])
+        for k in range(len(at) - 1, -1, -1):
+            rest.insert(at[k], "python-gapic-name=" + case["override_name"][k])
+        opts = rest
     case["opts"] = opts
     case["unknown"] = r.sample(["zzz=1", "go_package=x/y", "paths=source_relative", "foo=a=b", "Mgoogle/api/x.proto=example.com/x;x", "unknown"], r.randint(1, 3))
     if r.maybe(0.3):
         case["unknown"].append(f"transport={tr}")        # a repeated known key with the same value
+    if r.maybe(0.3):
+        # a LATER transport with a different value: `transport` is read with `[0]` (first occurrence), so it changes nothing
+        case["unknown"].insert(r.randint(0, len(case["unknown"])), "transport=" + r.pick([t for t in ["grpc", "rest", "grpc+rest"] if t != tr]))
     if case["override_name"] and r.maybe(0.3):
-        case["unknown"].append("python-gapic-name=" + case["override_name"])      # likewise (the last value of `name` is the one read)
+        case["unknown"].append("python-gapic-name=" + case["override_name"][-1])      # the winner once more, at the end: same winner
     return case
 
 
@@ -126,18 +144,25 @@ def build_files(case):
     return files, targets
 
 
-def expected_root(case):
+def name_values(opts):
+    """the values of the `name` override in an option list, in order (`name` is not a bare flag: only the prefixed key is read)"""
+    return [o.strip().split("=", 1)[1] for o in opts if o.strip().startswith("python-gapic-name=")]
+
+
+def expected_root(case, winner=None):
     ov = case["override_ns"]
     if isinstance(ov, str):
         ov = [ov]                  # older corpus entries: one value
     # one directory per dotted component of every value of the (repeatable) namespace key, in the order given
     ns = [seg for v in ov for seg in v.split(".")] if ov else case["ns"]
-    name = case["override_name"] if case["override_name"] else case["name"]
+    # `winner`: the `name` value the MODEL of Options.build says is read (the last one); without a model answer, the last one
+    given = name_values(case["opts"])
+    name = winner if winner else (given[-1] if given else case["name"])
     ver = case["version"]
     return "/".join([s.lower() for s in ns] + [name + ("_" + ver if ver else "")]), "/".join([s.lower() for s in ns] + [name])
 
 
-def oracle(ctx, case, res, files, targets, payload):
+def oracle(ctx, case, res, files, targets, payload, mroot=None):
     names = [f.name for f in res.file]
     if len(set(names)) != len(names):
         ctx.fail("duplicate-file-name", f"duplicate names: {[n for n in names if names.count(n) > 1][:3]}", payload)
@@ -147,10 +172,20 @@ def oracle(ctx, case, res, files, targets, payload):
             ctx.fail("name-not-normalised", f"file name {n!r}", payload)
     if not (res.supported_features & plugin_pb2.CodeGeneratorResponse.FEATURE_PROTO3_OPTIONAL):
         ctx.fail("proto3-optional-not-advertised", "supported_features lacks FEATURE_PROTO3_OPTIONAL", payload)
-    root, unversioned = expected_root(case)
+    winner = mroot.get("name") if mroot and mroot.get("match") else None
+    root, unversioned = expected_root(case, winner)
+    if mroot and mroot.get("match") and "/".join(mroot["dir"]) != root:
+        ctx.disagree("T3:c11.packageDir", f"the model's package directory {'/'.join(mroot['dir'])!r} is not the expected root {root!r}", payload)
     under = [n for n in names if n.startswith(root + "/")]
     if not under or root + "/__init__.py" not in names:
-        ctx.fail("package-root", f"no package under {root!r}; top-level dirs: {sorted(set(n.split('/')[0] for n in names))}", payload)
+        given = name_values(case["opts"])
+        # a repeated `name` key with different values and the package sits under ANOTHER occurrence's name: the wrong one won
+        other = [v for v in given if v != (winner or given[-1]) and expected_root(case, v)[0] + "/__init__.py" in names]
+        if other:
+            ctx.fail("override-winner", f"`python-gapic-name` given as {given}: the override read by Options.build is {winner or given[-1]!r} (the LAST value), so the "
+                     f"package belongs under {root!r}; it was emitted under {expected_root(case, other[0])[0]!r} ({other[0]!r} won)", payload)
+        else:
+            ctx.fail("package-root", f"no package under {root!r}; top-level dirs: {sorted(set(n.split('/')[0] for n in names))}", payload)
         return
     # __init__ closure under the package root(s)
     nameset = set(names)
@@ -341,6 +376,12 @@ def t2_naming_options(ctx, r):
             k = r.pick(OPT_KEYS); v = r.pick(OPT_VALS)
             parts.append(k if v is None else f"{k}={v}")
             if r.maybe(0.1): parts[-1] = " " + parts[-1] + " "
+        if r.maybe(0.3):
+            # a single-valued key REPEATED with different values (which occurrence is read differs from key to key)
+            k = r.pick(["python-gapic-name", "warehouse-package-name", "python-gapic-warehouse-package-name", "transport", "python-gapic-transport",
+                        "autogen-snippets", "proto-plus-deps"])
+            for v in r.sample(["grpc", "rest", "true", "false", "a_b", "x+y", "Shelf"], r.pick([2, 2, 3])):
+                parts.insert(r.randint(0, len(parts)), f"{k}={v}")
         s = ",".join(parts)
         with warnings.catch_warnings(record=True) as w:
             warnings.simplefilter("always")
@@ -396,13 +437,16 @@ def naming_with_overrides(pkgs, params):
         opts = Options.build(params)
     nm = Naming.build(*[descriptor_pb2.FileDescriptorProto(name=f"f{k}.proto", package=p) for k, p in enumerate(pkgs)], opts=opts)
     return {"nsWith": [x.lower() for x in nm.namespace], "module": nm.module_name, "versionedModule": nm.versioned_module_name,
-            "module_namespace": list(nm.module_namespace), "version": nm.version}
+            "module_namespace": list(nm.module_namespace), "version": nm.version,
+            "transport": list(opts.transport), "warehouse": opts.warehouse_package_name}
 
 
 def t2_naming_overrides(ctx, r):
     """the CLI overrides of `Naming.build`: the namespace key REPEATED 1..4 times, every value with 1..3 dotted components, the
-    name key (snake case / blanks / repeated), given as an option STRING (Options.build -> Naming.build), against the model
-    (`nsWith`, `nameOverrideText` + the pinned `to_valid_module_name`); and, model-free, the package root they yield"""
+    single-valued keys name (0..3 values, snake case / blanks), transport and warehouse-package-name (0..3 different values, bare
+    and prefixed), unknown options in between, given as an option STRING (Options.build -> Naming.build), against the model's
+    `packageDir` of the same string (`lastValue`/`firstValue`, `nsWith`, `nameOverrideText` + the pinned `to_valid_module_name`):
+    a wrong winner of a repeated key is the failure `override-winner`; and, model-free, the package root they yield"""
     ops, metas = [], []
     for i in range(ctx.n(200, 3000)):
         ns = [r.pick(NS_POOL) for _ in range(r.randint(0, 3))]
@@ -410,12 +454,17 @@ def t2_naming_overrides(ctx, r):
         pkg = ".".join(ns + [r.pick(NAMES)] + ([ver] if ver else []))
         nvals = r.pick([0, 1, 1, 2, 2, 3, 4])
         vals = [".".join(r.pick(NS_VALUE_SEGS) for _ in range(r.pick([1, 1, 2, 3]))) for _ in range(nvals)]
-        names = [r.pick(NAME_VALUES) for _ in range(r.pick([0, 0, 1, 1, 2]))]
+        names = [r.pick(NAME_VALUES) for _ in range(r.pick([0, 0, 1, 1, 2, 2, 3]))]
         parts = ["python-gapic-namespace=" + v for v in vals]
         for nmv in names:
             parts.insert(r.randint(0, len(parts)), "python-gapic-name=" + nmv)
+        # the other single-valued keys, repeated with different values (bare and prefixed spelling), and unknown options in between
+        for v in r.sample(["grpc", "rest", "grpc+rest", "rest+grpc"], r.pick([0, 0, 1, 2, 3])):
+            parts.insert(r.randint(0, len(parts)), r.pick(["transport=", "python-gapic-transport="]) + v)
+        for v in r.sample(["a-b", "acme-lib", "x"], r.pick([0, 0, 1, 2, 3])):
+            parts.insert(r.randint(0, len(parts)), r.pick(["warehouse-package-name=", "python-gapic-warehouse-package-name="]) + v)
         for _ in range(r.randint(0, 2)):
-            parts.insert(r.randint(0, len(parts)), r.pick(["transport=grpc+rest", "metadata", "zzz=1", "python-gapic-foo=x.y", "warehouse-package-name=a-b"]))
+            parts.insert(r.randint(0, len(parts)), r.pick(["metadata", "zzz=1", "python-gapic-foo=x.y", "name=bare_is_not_read", "some-other-plugin-opt=1"]))
         params = ",".join(parts)
         inp = {"pkgs": [pkg], "params": params}
         try:
@@ -423,19 +472,43 @@ def t2_naming_overrides(ctx, r):
         except Exception as e:
             ctx.fail("naming-override-raises", f"Naming.build for package {pkg!r} with options {params!r} raises {type(e).__name__}: {e}", {"naming": inp})
             continue
-        op = {"op": "c11.naming", "pkgs": [pkg], "namespace": vals}
-        given = [p.split("=", 1)[1] for p in parts if p.startswith("python-gapic-name=")]
-        if given:
-            op["name"] = given[-1]          # `opts.pop("name", [""]).pop()`: the LAST value of the repeated key is the one read
+        # the model gets the option STRING: which occurrence of a repeated key is read is its business (`lastValue` / `firstValue`)
+        op = {"op": "c11.root", "pkgs": [pkg], "s": params}
         ops.append(op); metas.append((inp, vals, names, impl, op))
     for (inp, vals, names, impl, op), mo in zip(metas, ctx.driver.ask(ops)):
         ctx.case(distinct_key=["override", json.dumps(inp, sort_keys=True)]); ctx.traces += 1
         ctx.count("namespace-override", f"{len(vals)} values, {'dotted' if any('.' in v for v in vals) else 'plain'}" if vals else "none")
+        ctx.count("repeated-single-valued", f"name x{len(set(mo.get('names', [])))} transport x{len(set(mo.get('transports', [])))}")
         check_override_root(ctx, inp, vals, impl)
-        for k in ("nsWith", "module", "versionedModule"):
-            if mo.get(k) != impl[k]:
-                ctx.disagree("T2:c11.Naming.build+overrides", f"{inp}: {k}: model {mo.get(k)!r} vs impl {impl[k]!r}", {"naming": inp, "op": op})
-                break
+        check_override_winner(ctx, inp, impl, mo, op)
+
+
+def check_override_winner(ctx, inp, impl, mo, op):
+    """the package directory and the transports under REPEATED single-valued keys, against the model of Options.build
+    (`name`, `warehouse-package-name`: last occurrence; `transport`: first occurrence) + Naming.build"""
+    payload = {"naming": inp, "op": op}
+    if not mo.get("match"):
+        ctx.disagree("T2:c11.Naming.build+overrides", f"{inp}: the model infers no naming", payload)
+        return
+    got_dir = impl["nsWith"] + [impl["versionedModule"]]
+    if got_dir != mo["dir"]:
+        if len(set(mo["names"])) > 1 and impl["nsWith"] == mo["dir"][:-1]:
+            # the namespace part agrees, the module part does not, and the name key was given with different values
+            ctx.fail("override-winner", f"{inp}: `name` given as {mo['names']}: Options.build reads the LAST value {mo['name']!r}, so the package directory is "
+                     f"{'/'.join(mo['dir'])!r}; the implementation places it under {'/'.join(got_dir)!r}", payload)
+        else:
+            ctx.disagree("T2:c11.Naming.build+overrides", f"{inp}: package directory: model {mo['dir']} vs impl {got_dir}", payload)
+    elif mo["module"] != impl["module"]:
+        ctx.disagree("T2:c11.Naming.build+overrides", f"{inp}: module: model {mo['module']!r} vs impl {impl['module']!r}", payload)
+    if mo["transport"] != impl["transport"]:
+        if len(set(mo["transports"])) > 1:
+            ctx.fail("override-winner", f"{inp}: `transport` given as {mo['transports']}: Options.build reads the FIRST value, so the transports (which decide the "
+                     f"transport files emitted) are {mo['transport']}; the implementation uses {impl['transport']}", payload)
+        else:
+            ctx.disagree("T2:c11.Options.build", f"{inp}: transport: model {mo['transport']} vs impl {impl['transport']}", payload)
+    if mo["warehouse"] != impl["warehouse"]:
+        # not a file NAME (it is the distribution name inside setup.py): outside the statement of C11, a model/impl difference only
+        ctx.disagree("T2:c11.Options.build", f"{inp}: warehouse-package-name: model {mo['warehouse']!r} vs impl {impl['warehouse']!r}", payload)
 
 
 def check_override_root(ctx, inp, vals, impl):
@@ -459,7 +532,9 @@ def run_case(ctx, case, label):
     if err:
         ctx.fail("generation:" + err[0], f"generator raised {err[0]}: {err[1]}", payload)
         return
-    oracle(ctx, case, res, files, targets, payload)
+    # the winners of repeated single-valued keys and the package directory, from the MODEL of Options.build + Naming.build
+    mroot = ctx.driver.ask([{"op": "c11.root", "pkgs": sorted({fd["pkg"] for fd in case["files"]}), "s": params}])[0]
+    oracle(ctx, case, res, files, targets, payload, mroot)
     # unknown / repeated options are ignored
     res2, err2 = genrun.try_generate(apigen.request(files, ",".join(case["opts"] + case["unknown"]), targets=targets))
     if err2:
@@ -467,12 +542,18 @@ def run_case(ctx, case, label):
         ctx.fail(key, f"unknown options {case['unknown']} make the generator raise {err2[0]}: {err2[1]}", payload)
     elif res2.SerializeToString(deterministic=True) != res.SerializeToString(deterministic=True):
         diff = [a.name for a, b in zip(res.file, res2.file) if a != b][:3]
-        ctx.fail("unknown-option-changes-output", f"unknown options {case['unknown']} change the response (e.g. {diff})", payload)
+        first_tr = [o for o in case["opts"] if o.startswith("transport=")][:1]
+        later_tr = [u for u in case["unknown"] if u.startswith("transport=") and u not in first_tr]
+        if first_tr and later_tr:
+            ctx.fail("override-winner", f"{first_tr[0]} followed later by {later_tr}: `transport` is read at its FIRST occurrence, yet the later one changes the "
+                     f"response (e.g. {diff}; all appended options: {case['unknown']})", payload)
+        else:
+            ctx.fail("unknown-option-changes-output", f"unknown options {case['unknown']} change the response (e.g. {diff})", payload)
     # T3: file-name set vs the model
     api, opts = genrun.build_api(req)
     ex = api.all_library_settings[api.naming.proto_package].python_settings.experimental_features
     op = {"op": "c11.renders", "templates": "default", "layout": layout_of(api),
-          "opts": {"transport": list(opts.transport), "metadata": bool(opts.metadata), "restAsync": bool(ex.rest_async_io_enabled),
+          "opts": {"transport": mroot["transport"] if mroot.get("match") else list(opts.transport), "metadata": bool(opts.metadata), "restAsync": bool(ex.rest_async_io_enabled),
                    "unversionedDisabled": bool(ex.unversioned_package_disabled)}}
     mo = ctx.driver.ask([op])[0]
     got = sorted(f.name for f in res.file if not f.name.startswith("samples/"))      # WITH multiplicity: the model's names are unique
@@ -517,6 +598,12 @@ CORPUS = [
                {"base": "ops", "pkg": "acme.lib.v1.s.admin", "messages": 1, "enum": False, "services": 0},
                {"base": "more", "pkg": "acme.lib.v1.s.admin.admin", "messages": 1, "enum": False, "services": 1}],
      "opts": ["transport=grpc+rest", "autogen-snippets=false", "metadata"], "unknown": ["unknown"]},
+    # `python-gapic-name` given three times with different values between other options: the LAST one names the package
+    {"pkg": "acme.lib.v1", "ns": ["acme"], "name": "lib", "version": "v1", "deps": False, "sub": None, "override_name": ["a", "shelf", "book_shelf"], "override_ns": ["org.acme"],
+     "files": [{"base": "lib", "pkg": "acme.lib.v1", "messages": 1, "enum": False, "services": 1}],
+     "opts": ["python-gapic-name=a", "transport=grpc", "python-gapic-name=shelf", "autogen-snippets=false", "python-gapic-namespace=org.acme", "some-other-plugin-opt=1",
+              "python-gapic-name=book_shelf", "warehouse-package-name=first", "python-gapic-warehouse-package-name=second"],
+     "unknown": ["zzz=1", "transport=rest", "python-gapic-name=book_shelf"]},
     # a package without namespace segments (setup.py.j2 crashed before the C11 fix: commit)
     {"pkg": "lib.v1", "ns": [], "name": "lib", "version": "v1", "deps": False, "sub": None, "override_name": None, "override_ns": None,
      "files": [{"base": "lib", "pkg": "lib.v1", "messages": 1, "enum": False, "services": 1}],
@@ -528,8 +615,9 @@ def run(ctx):
     ctx.rule = ("layout profile: 0..3 namespace segments x versions {v1, v1beta1, v1p1beta1, v2alpha, none} x 1..3 target files with names needing "
                 "sanitising x optional dependency file x optional sub-package tree (1..3 levels, 1..2 branches, intermediate packages with and "
                 "without files, services/messages at any level) x option strings (known, unknown, repeated keys, "
-                "name override, namespace override as 1..3 repeated keys each with 1..3 dotted components); Naming.build under "
-                "override option strings (0..4 namespace values, 0..2 name values) x packages; _get_filename: every template of both template sets x random namings; distinct by case")
+                "name override as 1..3 repeated keys with different values, repeated transport / warehouse-package-name, namespace override as "
+                "1..3 repeated keys each with 1..3 dotted components, interleaved); Naming.build under override option strings (0..4 namespace "
+                "values, 0..3 name / transport / warehouse values) x packages; _get_filename: every template of both template sets x random namings; distinct by case")
     ctx.assume("sub-package segments are not `types`/`services` (they would share a directory with the types/services packages of the parent)")
     ctx.assume("namespace/name override values are made of [A-Za-z0-9_] components separated by '.' (names also by blanks), no empty component")
     r = ctx.rng("layout")
@@ -562,7 +650,10 @@ def replay(ctx, payload):
         inp = payload["naming"]
         vals = [p.strip().split("=", 1)[1] for p in inp["params"].split(",") if p.strip().startswith("python-gapic-namespace=")]
         try:
-            check_override_root(ctx, inp, vals, naming_with_overrides(inp["pkgs"], inp["params"]))
+            impl = naming_with_overrides(inp["pkgs"], inp["params"])
+            check_override_root(ctx, inp, vals, impl)
+            op = {"op": "c11.root", "pkgs": inp["pkgs"], "s": inp["params"]}
+            check_override_winner(ctx, inp, impl, ctx.driver.ask([op])[0], op)
         except Exception as e:
             ctx.fail("naming-override-raises", f"{inp}: {type(e).__name__}: {e}", payload)
     for f in ctx.failures:
